@@ -108,13 +108,23 @@ Definition parse_state (dbg : bool) := parse_state_fixed.
 (* tags: S state, H transposition hash, F from-scratch hash, V valid_actions, N no-rep,
    T terminal/has_move/can_pass, K previews, B earlier boards, D diagram, R re-parse, E equality *)
 Definition tagS := 83. Definition tagH := 72. Definition tagF := 70. Definition tagV := 86.
-Definition tagN := 78. Definition tagT := 84. Definition tagK := 75. Definition tagB := 66.
+Definition tagN := 78. Definition tagT := 84. Definition tagK := 75. Definition tagB := 66. Definition tagW := 87.
 Definition tagD := 68. Definition tagR := 82. Definition tagE := 69.
 
 Definition from_scratch (s : state) : N :=
   z_from_piece_board (board s) (side s) (match ph s with PlayPhase pp => step_of pp | PlacePhase => 0 end).
 
 Definition seqN (n : N) : list N := map N.of_nat (seq 0 (N.to_nat n)).
+
+(* the public views of the board (PieceBoardState methods): both player masks, the twelve (kind, owner) boards, the six
+   kind boards, the placement bit, the trapped-piece bits, and the kind on each of the 64 squares (0 = none) *)
+Definition all_kinds : list piece := [Elephant; Camel; Horse; Dog; Cat; Rabbit].
+Definition enc_views (b : pbs) (setup : bool) : list N :=
+  [player_piece_mask b true; player_piece_mask b false] ++
+  flat_map (fun k => [bits_for_piece b k true; bits_for_piece b k false]) all_kinds ++
+  map (bits_by_piece_type b) all_kinds ++
+  [(if setup then placement_bit b else 0); trapped_piece_bits b] ++      (* placement bit: only meaningful (and only observed) in setup *)
+  map (fun i => match piece_type_at_square b i with Some k => 1 + piece_code k | None => 0 end) sq64.
 
 Definition observe (dbg : bool) (s : state) : list (N * list N) :=
   let v := valid_actions s in
@@ -126,7 +136,8 @@ Definition observe (dbg : bool) (s : state) : list (N * list N) :=
     (tagN, map enc_action n);
     (tagT, [enc_terminal (is_terminal s); enc_terminal (has_move s (board s));
             enc_bool (can_pass s true); enc_bool (can_pass s false)]);
-    (tagK, map (fun a => enc_preview (trapped_animal_for_action s a)) n) ] ++
+    (tagK, map (fun a => enc_preview (trapped_animal_for_action s a)) n);
+    (tagW, enc_views (board s) (match ph s with PlacePhase => true | _ => false end)) ] ++
   (match ph s with
    | PlayPhase pp => map (fun i => (tagB, i :: enc_pbs (piece_board_for_step s i))) (seqN (step_of pp + 1))
    | PlacePhase => []
